@@ -273,7 +273,23 @@ impl Ctx {
     fn exec_inner(&mut self, name: &str, op: &Value, ev: &mut Map<String, Value>) -> Result<(), String> {
         match name {
             "tables" => {
+                let k0 = self.tables.keys.ents.len();
+                let v0 = self.tables.vals.ents.len();
                 self.tables.load(op)?;
+                // the trace carries what the specification needs: lengths, the low 30 bits of the
+                // placement hash (decoder's re-implementation) and the bytes of short keys
+                let keys: Vec<Value> = self.tables.keys.ents[k0..].iter().map(|(id, b, int)| {
+                    let mut o = Map::new();
+                    o.insert("id".into(), json!(id));
+                    o.insert("len".into(), json!(b.len()));
+                    o.insert("h30".into(), json!(decode::placement_hash(b) & ((1 << 30) - 1)));
+                    if b.len() <= 40 { o.insert("bytes".into(), json!(b)); }
+                    if let Some(x) = int { o.insert("x4".into(), json!([x & 0xffff, (x >> 16) & 0xffff, (x >> 32) & 0xffff, (x >> 48) & 0xffff])); }
+                    Value::Object(o)
+                }).collect();
+                let vals: Vec<Value> = self.tables.vals.ents[v0..].iter().map(|(id, b, _)| json!({"id": id, "len": b.len()})).collect();
+                ev.insert("keys".into(), Value::Array(keys));
+                ev.insert("vals".into(), Value::Array(vals));
                 ev.insert("outcome".into(), json!("ok"));
             }
             "open_db" => {
@@ -319,7 +335,7 @@ impl Ctx {
                 ev.insert("dir".into(), json!(d));
                 ev.insert("name".into(), json!(nm));
                 ev.insert("kt".into(), json!(kt));
-                ev.insert("params".into(), op["params"].clone());
+                ev.insert("params".into(), if op["params"].is_object() { op["params"].clone() } else { json!({}) });
                 let existed = self.dir(&d).join(format!("{nm}.htx")).exists();
                 ev.insert("existed".into(), json!(existed));
                 let r: std::io::Result<MapH> = match (kt.as_str(), with_params) {
@@ -571,13 +587,20 @@ impl Ctx {
                 let to = self.dir(op["to"].as_str().ok_or("to")?);
                 let _ = std::fs::remove_dir_all(&to);
                 std::fs::create_dir_all(&to).map_err(|e| format!("{e}"))?;
+                let (fs, ts) = (op["from"].as_str().unwrap().to_string(), op["to"].as_str().unwrap().to_string());
+                let mut maps = vec![];
                 if let Ok(rd) = std::fs::read_dir(&from) {
                     for e in rd.flatten() {
                         if e.path().is_file() {
                             std::fs::copy(e.path(), to.join(e.file_name())).map_err(|e| format!("copy: {e}"))?;
+                            let fname = e.file_name().to_string_lossy().to_string();
+                            if let Some(stem) = fname.strip_suffix(".htx") {
+                                maps.push(json!([format!("{fs}/{stem}"), format!("{ts}/{stem}")]));
+                            }
                         }
                     }
                 }
+                ev.insert("maps".into(), Value::Array(maps));
                 ev.insert("outcome".into(), json!("ok"));
             }
             "rm_dir" => {
@@ -629,7 +652,7 @@ impl Ctx {
                         return Err("setrlimit failed".into());
                     }
                 }
-                ev.insert("bytes".into(), op.get("bytes").cloned().unwrap_or(Value::Null));
+                ev.insert("bytes".into(), json!(op.get("bytes").and_then(|b| b.as_i64()).unwrap_or(-1)));
                 ev.insert("outcome".into(), json!("ok"));
             }
             "phys" => {
@@ -660,6 +683,8 @@ impl Ctx {
                     std::fs::write(&f, b).map_err(|e| format!("mutate write: {e}"))?;
                 }
                 ev.insert("file".into(), op["file"].clone());
+                ev.insert("map".into(), op.get("map").cloned().unwrap_or(json!("-")));
+                ev.insert("foreign".into(), op.get("foreign").cloned().unwrap_or(json!(true)));
                 ev.insert("outcome".into(), json!("ok"));
             }
             "conv" => {
